@@ -63,8 +63,8 @@ def cmp(x,y):
     if isinstance(x, dict):
         if lx == 0: # two empty dicts
             return 0
-        xk, xv = zip(*sorted(x.items()))
-        yk, yv = zip(*sorted(y.items()))
+        xk, xv = zip(*sorted(x.items(), key = _item_key)) # keys may be of mixed types
+        yk, yv = zip(*sorted(y.items(), key = _item_key))
         c = cmparr(xk, yk)
         if c!=0:
             return c
@@ -108,6 +108,9 @@ class Cmp(object):
 
     def __str__(self):
         return 'Compare(%s)'%self.x 
+
+def _item_key(item):
+    return Cmp(item[0])
 
 vcmp = np.vectorize(Cmp)
 
